@@ -23,7 +23,7 @@ ALLOW_SETTINGS_LEAK = True  # leaks are this check's subject; each program resto
 RULE = ("programs = every well-nested string of with-blocks over the token alphabet (every exported settings class x "
         "argument patterns) in families F1 (single block x fault), F2 (all ordered nested pairs x 6 fault placements), "
         "F2m (multi-item with), F2s (sequential pairs), F2e (enter/constructor raises inside every block), "
-        "Fself (same class nested in itself to depth 3/5), Fgroup (coupled groups to depth 3/4), F3 (all nested triples, "
+        "Fself (same class nested in itself to depth 3/5), Fgroup (coupled groups to depth 3/4), F3 (all nested triples over two tokens per class, "
         "thorough); a program is non-trivial when at least one observable changes inside it; distinct = distinct "
         "(program family, token tuple, fault) ")
 ASSUMPTIONS = ["programs are `with S(args):` statements (construction immediately followed by entry)",
